@@ -559,3 +559,65 @@ package core
 //@ props C16 C06 C07
 //@ callreq send d.inputChan: a1.duty == duty && a1.success == success
 //@ ensures ncalls("send d.inputChan") <= 1
+
+// ---- C14: the versioned attestation decoder always tries the current wire layout on the whole input first and
+// falls back to the legacy layout (no validator index) only after that attempt failed with an offset error: an
+// input that decodes under the current layout is never re-interpreted, and a successful decode sets version and
+// validator index from the attempt that succeeded.
+//@ func (a *VersionedAttestation) UnmarshalSSZ
+//@ props C14
+//@ callreq unmarshalSSZVersionedValidatorIdx: a1 == b && ncalls(unmarshalSSZVersionedValidatorIdx) == 0 && ncalls(unmarshalSSZVersioned) == 0
+//@ callreq unmarshalSSZVersioned: a1 == b && ncalls(unmarshalSSZVersionedValidatorIdx) == 1 && ncalls(unmarshalSSZVersioned) == 0
+//@ ghost firstOK bool
+//@ ghostafter unmarshalSSZVersionedValidatorIdx: firstOK = err == nil
+//@ ensures ncalls(unmarshalSSZVersionedValidatorIdx) == 1
+//@ ensures firstOK ==> result == nil && ncalls(unmarshalSSZVersioned) == 0
+//@ ensures result == nil && !firstOK ==> ncalls(unmarshalSSZVersioned) == 1
+
+// ---- C09 / C10: signing epoch per signed type (consensus spec: which epoch selects the fork of the domain) ----
+//@ pure VersionedSignedProposal.Slot VersionedSignedAggregateAndProof.Slot eth2spec.VersionedAttestation.Data
+
+//@ func (p VersionedSignedProposal) Epoch
+//@ props C09 C10
+//@ ensures r1 == nil ==> res(1, p.Slot()) == nil && r0 == res(0, eth2util.EpochFromSlot(ctx, eth2Cl, res(0, p.Slot())))
+
+// attestations are signed for the fork of their TARGET epoch
+//@ func (a VersionedAttestation) Epoch
+//@ props C09 C10
+//@ ensures r1 == nil ==> res(1, a.Data()) == nil && r0 == res(0, a.Data()).Target.Epoch
+
+//@ func (e SignedVoluntaryExit) Epoch
+//@ props C09 C10
+//@ ensures r1 == nil && r0 == e.Message.Epoch
+
+//@ func (VersionedSignedValidatorRegistration) Epoch
+//@ props C09 C10
+//@ ensures r1 == nil && r0 == 0
+
+//@ func (s SignedRandao) Epoch
+//@ props C09 C10
+//@ ensures r1 == nil && r0 == s.SignedEpoch.Epoch
+
+//@ func (s BeaconCommitteeSelection) Epoch
+//@ props C09 C10
+//@ ensures r0 == res(0, eth2util.EpochFromSlot(ctx, eth2Cl, s.Slot)) && r1 == res(1, eth2util.EpochFromSlot(ctx, eth2Cl, s.Slot))
+
+//@ func (s SignedAggregateAndProof) Epoch
+//@ props C09 C10
+//@ ensures r0 == res(0, eth2util.EpochFromSlot(ctx, eth2Cl, s.Message.Aggregate.Data.Slot)) && r1 == res(1, eth2util.EpochFromSlot(ctx, eth2Cl, s.Message.Aggregate.Data.Slot))
+
+//@ func (ap VersionedSignedAggregateAndProof) Epoch
+//@ props C09 C10
+//@ ensures r1 == nil ==> res(1, ap.Slot()) == nil && r0 == res(0, eth2util.EpochFromSlot(ctx, eth2Cl, res(0, ap.Slot())))
+
+//@ func (s SignedSyncMessage) Epoch
+//@ props C09 C10
+//@ ensures r0 == res(0, eth2util.EpochFromSlot(ctx, eth2Cl, s.Slot)) && r1 == res(1, eth2util.EpochFromSlot(ctx, eth2Cl, s.Slot))
+
+//@ func (s SignedSyncContributionAndProof) Epoch
+//@ props C09 C10
+//@ ensures r0 == res(0, eth2util.EpochFromSlot(ctx, eth2Cl, s.Message.Contribution.Slot)) && r1 == res(1, eth2util.EpochFromSlot(ctx, eth2Cl, s.Message.Contribution.Slot))
+
+//@ func (s SyncCommitteeSelection) Epoch
+//@ props C09 C10
+//@ ensures r0 == res(0, eth2util.EpochFromSlot(ctx, eth2Cl, s.Slot)) && r1 == res(1, eth2util.EpochFromSlot(ctx, eth2Cl, s.Slot))
